@@ -69,9 +69,9 @@ def handleJoin (fs : List (String × String)) : String := Id.run do
   let okH := verify (toRem jpre) (toVer hpre)
   let jn := initNode (mkCfg "J") jpre
   let hn := initNode (mkCfg "H") hpre
-  let (jn', jouts) := if okJ then mergeState jn (pushOf hpre) 1 else (jn, [])
-  let (hn', houts) := if okH then mergeState hn (pushOf jpre) 1 else (hn, [])
-  let same (n : Node) (outs : List Out) (o : Obs) : Bool :=
+  let (jn', jouts) := if okJ then Swim.Cluster.mergeEmit jn (pushOf hpre) 1 else (jn, [])
+  let (hn', houts) := if okH then Swim.Cluster.mergeEmit hn (pushOf jpre) 1 else (hn, [])
+  let same (n : Node) (outs : List (Out × List Swim.Cluster.Msg)) (o : Obs) : Bool :=
     canonRecs n == o.recs && canonTimers n == o.timers && n.selfInc == o.selfInc && n.score == o.score &&
       n.numNodes == o.numNodes && canonOuts outs == o.outs
   let agree := same jn' jouts jpost && same hn' houts hpost && ((res == "ok") == okJ)
